@@ -1600,27 +1600,34 @@ class FE:
                     out.append('*(struct verif_B%d*)%s = *(const struct verif_B%d*)%s;' % (lv.v, A[0], lv.v, A[1]))
             else:
                 # element-typed inline copy loop when the destination is a bitcast/gep of a typed pointer
-                et = s.elem_type_of(ins['args'][0][1]) or s.elem_type_of(ins['args'][1][1])
+                etd = s.elem_type_of(ins['args'][0][1]); ets = s.elem_type_of(ins['args'][1][1])
+                et = etd or ets
+                # a struct element type is trusted only when both operands agree on it (clang folds derived-class field offsets into
+                # GEPs over the base struct, whose pointee type is then not the element type of the copied array)
+                if et is not None and isinstance(s.res(et), (TStruct, TNamed)) and not (etd is not None and ets is not None and s.cty(etd) == s.cty(ets)): et = None
+                if et is not None and etd is not None and ets is not None and em.size_align(etd)[0] != em.size_align(ets)[0]: et = None
                 esz = em.size_align(et)[0] if et is not None else 1
                 if et is not None and esz > 1 and esz <= 64 and isinstance(s.res(et), (TInt, TPtr, TStruct, TNamed)):
                     em.need_complete(et)
                     ct = s.cty(et); k = s.tmp()
                     mv = 'memmove' in n
                     out.append('{ uint64_t n_%s = %s; %s* d_%s = (%s*)%s; const %s* s_%s = (const %s*)%s;' % (k, A[2], ct, k, ct, A[0], ct, k, ct, A[1]))
-                    out.append('  if (n_%s %% %d != 0) verif_%s((uint8_t*)d_%s, (const uint8_t*)s_%s, n_%s);' % (k, esz, 'memmove' if mv else 'memcpy', k, k, k))
+                    # the length must be a whole number of elements (asserted): no byte-wise fall-back, which CBMC would have to explore
+                    # for every symbolic length and which turns pointer arrays into byte expressions
+                    out.append('  __CPROVER_assert(n_%s %% %d == 0, "translator: typed %s length is a multiple of the element size");' % (k, esz, 'memmove' if mv else 'memcpy'))
                     if mv:
-                        out.append('  else if ((uintptr_t)d_%s <= (uintptr_t)s_%s) { for (uint64_t i_ = 0; i_ < n_%s / %d; ++i_) d_%s[i_] = s_%s[i_]; }' % (k, k, k, esz, k, k))
-                        out.append('  else { for (uint64_t i_ = n_%s / %d; i_ > 0; --i_) d_%s[i_ - 1] = s_%s[i_ - 1]; } }' % (k, esz, k, k))
+                        out.append('  if ((uintptr_t)d_%s <= (uintptr_t)s_%s) { for (uint64_t i_ = 0; i_ < n_%s / %d; ++i_) { %s* dp_ = d_%s + i_; const %s* sp_ = s_%s + i_; *dp_ = *sp_; } }' % (k, k, k, esz, ct, k, ct, k))
+                        out.append('  else { for (uint64_t i_ = n_%s / %d; i_ > 0; --i_) { %s* dp_ = d_%s + (i_ - 1); const %s* sp_ = s_%s + (i_ - 1); *dp_ = *sp_; } } }' % (k, esz, ct, k, ct, k))
                     else:
-                        out.append('  else { for (uint64_t i_ = 0; i_ < n_%s / %d; ++i_) d_%s[i_] = s_%s[i_]; } }' % (k, esz, k, k))
+                        out.append('  for (uint64_t i_ = 0; i_ < n_%s / %d; ++i_) { %s* dp_ = d_%s + i_; const %s* sp_ = s_%s + i_; *dp_ = *sp_; } }' % (k, esz, ct, k, ct, k))
                 else:
                     k = s.tmp(); mv = 'memmove' in n
                     out.append('{ uint64_t n_%s = %s; uint8_t* d_%s = (uint8_t*)%s; const uint8_t* s_%s = (const uint8_t*)%s;' % (k, A[2], k, A[0], k, A[1]))
                     if mv:
-                        out.append('  if ((uintptr_t)d_%s <= (uintptr_t)s_%s) { for (uint64_t i_ = 0; i_ < n_%s; ++i_) d_%s[i_] = s_%s[i_]; }' % (k, k, k, k, k))
-                        out.append('  else { for (uint64_t i_ = n_%s; i_ > 0; --i_) d_%s[i_ - 1] = s_%s[i_ - 1]; } }' % (k, k, k))
+                        out.append('  if ((uintptr_t)d_%s <= (uintptr_t)s_%s) { for (uint64_t i_ = 0; i_ < n_%s; ++i_) { uint8_t* dp_ = d_%s + i_; const uint8_t* sp_ = s_%s + i_; *dp_ = *sp_; } }' % (k, k, k, k, k))
+                        out.append('  else { for (uint64_t i_ = n_%s; i_ > 0; --i_) { uint8_t* dp_ = d_%s + (i_ - 1); const uint8_t* sp_ = s_%s + (i_ - 1); *dp_ = *sp_; } } }' % (k, k, k))
                     else:
-                        out.append('  for (uint64_t i_ = 0; i_ < n_%s; ++i_) d_%s[i_] = s_%s[i_]; }' % (k, k, k))
+                        out.append('  for (uint64_t i_ = 0; i_ < n_%s; ++i_) { uint8_t* dp_ = d_%s + i_; const uint8_t* sp_ = s_%s + i_; *dp_ = *sp_; } }' % (k, k, k))
             return False
         if n.startswith('llvm.memset'):
             lv = ins['args'][2][1]; vv = ins['args'][1][1]
@@ -2044,6 +2051,18 @@ def emit_module(m, opts):
         else:
             d2.append('int verif_main_step(void) { %s(); return 1; }' % em.fname(ent))
         out += d1 + d2
+    # functions on a call cycle (direct or mutual recursion): the runner may seed CBMC's recursion bound for them
+    callre2 = re.compile(r'\b(?:call|invoke)\b[^\n]*?(@"(?:[^"\\]|\\.)*"|@[-a-zA-Z$._0-9]+)\(')
+    cg = {n: set(callre2.findall('\n'.join(sum([b.ins for b in f.blocks], [])))) for n, f in m.funcs.items() if not f.decl and kept(n)}
+    rec = []
+    for n in cg:
+        seen = set(); work = list(cg[n])
+        while work:
+            x = work.pop()
+            if x == n: rec.append(n); break
+            if x in seen or x not in cg: continue
+            seen.add(x); work.extend(cg[x])
+    out.append('/* VERIF-RECURSIVE: %s */' % ' '.join(sorted(em.fname(n) for n in rec)))
     return '\n'.join(out) + '\n'
 
 def main():
